@@ -344,7 +344,8 @@ def run_units(units, tier, seed, jobs=None):
             res = [_worker(t) for t in tasks]
         else:
             ctxm = multiprocessing.get_context("fork")
-            with ctxm.Pool(n) as pool:
+            # workers are recycled: z3 never frees its term table, so a long-lived worker grows
+            with ctxm.Pool(n, maxtasksperchild=8) as pool:
                 res = pool.map(_worker, tasks, chunksize=1)
         outs.extend(res)
         if use_cache:
